@@ -510,7 +510,17 @@ func secondPass(tr *Trace, known string, tag string) (v *Violation, tx uint64, s
 	var so bytes.Buffer
 	cmd.Stdout = &so
 	cmd.Stderr = os.Stderr
-	err := cmd.Run()
+	err := cmd.Start()
+	if err == nil {
+		done := make(chan error, 1)
+		go func() { done <- cmd.Wait() }()
+		select {
+		case err = <-done:
+		case <-time.After(10 * time.Minute):
+			cmd.Process.Kill() // never leave a spinning child behind
+			err = <-done
+		}
+	}
 	for _, ln := range strings.Split(so.String(), "\n") {
 		if strings.HasPrefix(ln, "RESULT ") {
 			var res struct {
